@@ -12,6 +12,7 @@ import fractions
 import itertools
 import numbers
 import time
+import os
 import z3
 
 # ----------------------------------------------------------------------------------------
@@ -364,6 +365,10 @@ def explore(run, max_paths=400):
                 outcome = ("infeasible", None)
             except Unsupported as e:
                 outcome = ("unsupported", str(e))
+                if os.environ.get("FVC_TB"):
+                    import traceback
+
+                    traceback.print_exc()
         finally:
             _CTX = prev
         if outcome[0] != "infeasible":
